@@ -38,6 +38,56 @@ Section ResProofs.
   Notation decode_block_st := (decode_block_st zone tl).
   Notation run_blocks := (run_blocks zone tl).
 
+  (* ---- ColTuple.Infer / ColNamed.Infer as functions of their own --------------------------------- *)
+  (* `if s, ok := v.(Inferable); ok { s.Infer(..) }` *)
+  Definition opt_infer (t : ty) (s : bytes) : ty * iout := if inferable_ty t then infer_st t s else (t, IOk).
+
+  (* the loop of ColTuple.Infer over the elements and the arguments of Tuple(...): element i gets argument i, trimmed;
+     the first failure stops the loop and leaves the later elements untouched *)
+  Fixpoint tup_infer (ts : list ty) (args : list bytes) : list ty * iout :=
+    match ts, args with
+    | t0 :: r, a :: ar =>
+      let '(t0', o) := opt_infer t0 (trim_space a) in
+      match o with
+      | IOk => let '(r', o') := tup_infer r ar in (t0' :: r', o')
+      | _ => (t0' :: r, o)
+      end
+    | _, _ => (ts, IOk)
+    end.
+
+  Lemma infer_st_tuple ts s : infer_st (TTuple ts) s =
+    if existsb inferable_ty ts then
+      if negb (length (split_type_args (elem s)) =? length ts)%nat then (TTuple ts, IErr)
+      else let '(ts', o) := tup_infer ts (split_type_args (elem s)) in (TTuple ts', o)
+    else (TTuple ts, IOk).
+  Proof.
+    cbn [Results.infer_st]. destruct (existsb inferable_ty ts); [|reflexivity]. rewrite elem_r_ok. cbn [rok].
+    destruct (negb _); [reflexivity|].
+    reflexivity.   (* the nested fix of [infer_st] is [tup_infer] up to unfolding [opt_infer] *)
+  Qed.
+
+  Lemma infer_st_named n d s : infer_st (TNamed n d) s =
+    if inferable_ty d then
+      match cut_prefix (n ++ [32]) s with
+      | Some e => let '(d', o) := infer_st d e in (TNamed n d', o)
+      | None => (TNamed n d, IErr)
+      end
+    else (TNamed n d, IOk).
+  Proof. reflexivity. Qed.
+
+  (* whatever relation every element's Infer keeps, the loop keeps element by element *)
+  Lemma tup_infer_rel (R : ty -> ty -> Prop) : (forall t, R t t) -> forall ts,
+    Forall (fun t => forall s, R t (fst (infer_st t s))) ts -> forall args, Forall2 R ts (fst (tup_infer ts args)).
+  Proof.
+    intros Rr ts H. assert (Hrefl : forall l, Forall2 R l l) by (induction l; constructor; auto).
+    induction H as [|t0 r H0 _ IH]; intros args; [destruct args; constructor|].
+    destruct args as [|a ar]; [apply Hrefl|]. cbn [tup_infer].
+    assert (H1 : R t0 (fst (opt_infer t0 (trim_space a)))) by (unfold opt_infer; destruct (inferable_ty t0); [apply H0|apply Rr]).
+    destruct (opt_infer t0 (trim_space a)) as [t0' o]. cbn [fst] in H1.
+    destruct o; [|cbn [fst]; constructor; [exact H1|apply Hrefl]..].
+    specialize (IH ar). destruct (tup_infer r ar) as [r' o']. cbn [fst] in *. now constructor.
+  Qed.
+
   (* ---- Infer never slices out of range ----------------------------------------------------- *)
   Lemma dt64_infer_no_crash name s : snd (dt64_infer zone name s) <> ICrash.
   Proof.
@@ -94,16 +144,18 @@ Section ResProofs.
       assert (Hv : snd (if inferable_ty t2 then infer_st t2 (trim_space vt) else (t2, IOk)) <> ICrash)
         by (destruct (inferable_ty t2); [apply IHt2|cbn; discriminate]).
       destruct (if inferable_ty t2 then infer_st t2 (trim_space vt) else (t2, IOk)) as [v' ov]. exact Hv.
-    - match goal with |- snd (let '(a, b) := ?g ts in _) <> _ => assert (Hg : snd (g ts) <> ICrash) end.
-      { induction H as [|t0 ts' Ht0 _ IH]; [cbn; discriminate|].
-        assert (H0 : snd (if inferable_ty t0 then infer_st t0 s else (t0, IOk)) <> ICrash)
-          by (destruct (inferable_ty t0); [apply Ht0|cbn; discriminate]).
-        destruct (if inferable_ty t0 then infer_st t0 s else (t0, IOk)) as [t0' o].
+    - change (snd (infer_st (TTuple ts) s) <> ICrash). rewrite infer_st_tuple. destruct (existsb inferable_ty ts); [|cbn; discriminate].
+      destruct (negb _); [cbn; discriminate|].
+      assert (Hg : forall args, snd (tup_infer ts args) <> ICrash).
+      { induction H as [|t0 ts' Ht0 _ IH]; intros [|a ar]; try (cbn; discriminate). cbn [tup_infer].
+        assert (H0 : snd (opt_infer t0 (trim_space a)) <> ICrash)
+          by (unfold opt_infer; destruct (inferable_ty t0); [apply Ht0|cbn; discriminate]).
+        destruct (opt_infer t0 (trim_space a)) as [t0' o].
         destruct o; cbn in H0; try congruence; try (cbn; discriminate).
-        match goal with |- snd (let '(a, b) := ?x in _) <> _ => destruct x end. exact IH. }
-      match goal with |- snd (let '(a, b) := ?x in _) <> _ => destruct x end. exact Hg.
-    - destruct (inferable_ty t); [|cbn; discriminate].
-      specialize (IHt s). destruct (infer_st t s). exact IHt.
+        specialize (IH ar). destruct (tup_infer ts' ar). exact IH. }
+      specialize (Hg (split_type_args (elem s))). destruct (tup_infer ts _). exact Hg.
+    - destruct (inferable_ty t); [|cbn; discriminate]. destruct (cut_prefix _ s) as [e|]; [|cbn; discriminate].
+      specialize (IHt e). destruct (infer_st t e). exact IHt.
   Qed.
 
   (* a column that is not Inferable is left alone *)
